@@ -127,6 +127,12 @@ func (l *loader) doLoad() {
 
 		switch l.mode {
 		case readMultiLineComment, readInlineComment:
+			if lex.Type() == lexeme.NewLine {
+				// A line break inside a multi-line annotation ends the line of the
+				// nodes written before it as well: what follows the annotation on
+				// its last line is alone there.
+				l.nodesPerCurrentLineCount = 0
+			}
 			l.rule.load(lex)
 		default:
 			if node := l.node.Load(lex); node != nil {
